@@ -99,6 +99,44 @@ CLAIMED = {
         "note": "Trusted: TLC, numpy savez/load. File-format compatibility across library versions is not decided.",
         "ref": "DESIGN.md section 3 C09",
     },
+    "C10": {
+        "technique": "KernelExact.tla: kernels, compositions, data-covariance builder, hyper-parameter gradients and mean functions as exact "
+                     "rational/symbolic operators enumerated by TLC; every case replayed into the real covariance / mean classes",
+        "text": "4 point sets (1-D, 2-D) x 12 kernel compositions (SE, RQ, +white, +heteroscedastic noise, sums of 2-4, change-points with "
+                "2 and 3 kernels alone and inside sums) x 3 mean functions: __call__, build_covariance, covariance_and_gradients (every "
+                "gradient matrix), labels / n_params / bounds concatenation, build_mean, mean __call__ and mean_and_gradients must agree "
+                "with the exact values; symmetry and PSD checked exactly where 32-bit rationals allow and numerically on the implementation.",
+        "note": "Trusted: TLC, math.log at exact arguments. 4-kernel change-points and sums inside change-points are not in the exact family "
+                "(32-bit denominators); PSD for near-coincident points (jitter adequacy) is not decided.",
+        "ref": "DESIGN.md section 3 C10",
+    },
+    "C02": {
+        "technique": "GpExact.tla: exact rational GP posterior (adjugate inverses) on the KernelExact families, enumerated by TLC with "
+                     "symmetry / variance-range / order-independence / LOO-shortcut invariants; every problem replayed into GpRegressor",
+        "text": "204 problems (1-3 data points, 1-D/2-D, SE/RQ/+noise kernels, constant/linear/quadratic means, zero/uniform/per-point/full "
+                "error covariance) x up to 5 call variants (y_err vs y_cov, arrays vs lists, reversed training order): __call__, "
+                "build_posterior and build_posterior(mean_only) must equal the printed rationals to 1e-9 and stay within [0, prior].",
+        "note": "Trusted: TLC. Conditioning off the rational families and the automatic hyper-parameter search (C11) are not decided here.",
+        "ref": "DESIGN.md section 3 C02",
+    },
+    "C11": {
+        "technique": "GpExact.tla scores (LML, LOO by actual deletion, gradients as exact SymLin values) replayed into the regressor; "
+                     "Select.tla selection state machine model-checked; selection runs validated by SelectTrace.tla",
+        "text": "marginal_likelihood, marginal_likelihood_gradient, loo_likelihood, loo_likelihood_gradient and loo_predictions on every "
+                "enumerated problem (gradient tables where they fit 32-bit rationals); automatic selection with both optimisers and both "
+                "criteria on seeded random data: result inside the bounds and, for the multi-start optimiser, at least as good as the centre.",
+        "note": "Trusted: TLC, math.log. Global optimality is not claimed by the property.",
+        "ref": "DESIGN.md section 3 C11",
+    },
+    "C16": {
+        "technique": "GpExact.tla derivative predictions (exact multiples of ln2, ln2^2) for the squared-exponential kernel replayed into "
+                     "gradient() and spatial_derivatives()",
+        "text": "72 problems (<= 2 data points, 1-D/2-D, all mean functions and noise specifications), 3 query points singly and batched: "
+                "gradient mean (with the mean-function slope), variance derivative and gradient covariance must equal the reference; the "
+                "covariance must be symmetric PSD and below the prior.",
+        "note": "Trusted: TLC. Only SquaredExponential supports derivative predictions.",
+        "ref": "DESIGN.md section 3 C16",
+    },
     "C13": {
         "technique": "Hdi.tla: declarative Good predicate + algorithm model, AlgorithmIsGood model-checked by TLC over every small sample "
                      "and fraction; every enumerated case run through the real sample_hdi in 8 call variants and judged by HdiTrace.tla",
